@@ -6,6 +6,8 @@
 // last shown is what stays on the screen), and the rows a non-aggregate query emits for the k-th line are what the batch output
 // over k lines adds to the batch output over k-1 lines.  Grid: every sequence of up to 4 lines over a 7-line pool (one
 // non-admitted) x 7 aggregate statements (HAVING that a group can stop satisfying, DISTINCT, PERCENTILE) and 6 plain / DISTINCT statements, every prefix k.
+// Also: TEXT aggregates whose argument is NULL on the first lines of a group (STRING_AGG, MIN / MAX, ARRAY_AGG, COUNT(DISTINCT))
+// over a 5-line pool; a split-pattern table in which blank and whitespace lines are rows.
 include!("verif_grid_common.rs");
 include!("verif_grid_qcommon.rs");
 
@@ -71,6 +73,16 @@ fn verif_grid() {
             let b1 = base.clone();
             g.case(&format!("text-aggregate-b{}-s{}", bi, si), move || check_in(def2, st, true, &b1));
         }
+    }
+    // a table whose pattern is a split: blank and whitespace lines are rows (field 0 is the whole line)
+    let def3 = "CREATE TABLE t(f = split ';', f[0] => whole TEXT, f[1] => first TEXT, f[2] => second TEXT);";
+    let pool3 = ["a;b", "", "  ", "c", ";", "a;b"];
+    let agg3 = ["SELECT COUNT(*) AS n FROM t", "SELECT first, COUNT(*) AS n FROM t GROUP BY first", "SELECT COUNT(second) AS c, MAX(whole) AS m FROM t"];
+    let plain3 = ["SELECT whole, first FROM t", "SELECT DISTINCT first FROM t"];
+    for (bi, base) in sequences(&pool3, 3).into_iter().enumerate() {
+        if base.is_empty() { continue; }
+        for (si, st) in agg3.iter().enumerate() { let b1 = base.clone(); g.case(&format!("split-aggregate-b{}-s{}", bi, si), move || check_in(def3, st, true, &b1)); }
+        for (si, st) in plain3.iter().enumerate() { let b1 = base.clone(); g.case(&format!("split-plain-b{}-s{}", bi, si), move || check_in(def3, st, false, &b1)); }
     }
     g.done();
 }
